@@ -122,6 +122,7 @@ PROPS["C14"] = {
 PROPS["C20"] = {
     "shards": {"quick": 16, "thorough": 16},
     "offline": _lazy("c20"),
+    "recs_in_memory": False,   # the offline workers read the shard files themselves
     "rule": ("doubles: +-64 ulps around 1e-4 and 1e15, +-8 ulps around every 10^k (k=-320..308), 15-digit carry patterns (9.99999999999999.., ..9995) at every decade, powers of two, "
              "subnormals, f64::MAX, plus seeded random doubles (uniform bit patterns, display-range magnitudes, few-digit decimals, integers, values just below powers of ten). "
              "Each is displayed by format_display_number and by format(\"{}\", x) (must agree); Python parses the text with its own numeral grammar and compares exactly "
@@ -135,6 +136,7 @@ PROPS["C16"] = {
     "needs_cli": True,
     "shards": {"quick": 16, "thorough": 16},
     "offline": _lazy("c16"),
+    "recs_in_memory": False,   # the offline workers read the shard files themselves
     "rule": ("doubles (decade / power-of-two / threshold boundaries +- ulps, 15-digit carry patterns, random bit patterns) pushed through five textual paths: P1 to_string->to_number, "
              "P2 JSON out->in, P3 captured in a closure->emitted source->reloaded->called, P4 literal in a function body->emitted->reloaded, P5 literal statement->formatter->parser; "
              "bits must come back identical (judged in process) and the text must denote exactly that double (judged offline by CPython float()). Literals: generated spellings "
@@ -147,6 +149,7 @@ PROPS["C16"] = {
 PROPS["C15"] = {
     "shards": {"quick": 16, "thorough": 16},
     "offline": _lazy("c15"),
+    "recs_in_memory": False,   # the offline workers read the shard files themselves
     "rule": ("number lists of length 1..50 in seven regimes (small integers, dyadic, decimal fractions, mixed magnitudes, with infinities, duplicates incl. +-0, tiny and huge); "
              "sum/prod/avg/min/max/median are called as f(list), f(...list), f(a, b, ...) and on a permutation; conventions must agree bit for bit (in process); offline, exact rational "
              "arithmetic gives the reference: |sum-exact| <= n*eps*sum|x|, prod within (n+1)*2eps relative when no over/underflow is possible, avg = sum/n, min/max elements bounding "
@@ -159,6 +162,7 @@ PROPS["C06"] = {
     "shards": {"quick": 16, "thorough": 16},
     "needs_cli": True,
     "offline": _lazy("c06"),
+    "recs_in_memory": False,   # the offline workers read the shard files themselves
     "rule": ("(1) random data values (depth <= 5; doubles from boundaries and random bits, strings over all scalar values incl. quotes, backslashes, controls, U+2028, astral; odd keys) "
              "built directly in the heap, written by the real output path and (a) parsed by Python's json and compared with the tagged tree (bits / code points / unordered keys), "
              "(b) read back by the real input path and compared bit-exactly and with .==; (2) generated JSON documents (numbers in many spellings incl. beyond 2^64, strings with "
@@ -211,7 +215,7 @@ PROPS["C03"] = {
              "nested assignment in operand / list / record / conditional, do-block and parameter shadowing, callbacks, output forms, failing statements of every kind), sampled longer "
              "sequences, and random sessions of 20-200 statements on 6 names. non-trivial = a bound name is mentioned by a later statement"),
     "exhaustive": True,
-    "exhaustive_subspaces": ["statement sequences of length <= 4 (quick) / <= 5 (thorough) over the 50-template alphabet", "sequences of length <= 3 over each of 6 value variants of the alphabet"],
+    "exhaustive_subspaces": ["statement sequences of length <= 4 over the 58-template alphabet (both tiers), of length 5 over its first 40 templates (thorough)", "sequences of length <= 3 over each of 6 value variants of the alphabet"],
     "min_nontrivial": {"quick": 100000, "thorough": 100000},
     "needs_cli": True,
     "offline": _lazy("c03"),
